@@ -315,6 +315,10 @@ def obligations(tier, seed):
     specs.append(spec(MOD, 'Strategy', 'strategy-quadkey-crash/file:quadkey', kind='finding', finding_key='C12-quadkey-directory-strategy',
                       cfg=dict(cache='file:quadkey')))
     specs.append(spec(MOD, 'ExpiryAgreement', 'expiry-predicates-agree', cfg={}))
+    # the tile-walk strategy decides by TileManager.is_stale, i.e. by the timestamp the cache reports: for a linked single-colour
+    # tile that must be the time of its own directory entry, not of the shared file it points to (C13 harness)
+    for via in ('load_tile_metadata', 'load_tile'):
+        specs.append(spec('props.C13_expiry', 'FileTimestamp', 'tile-walk-sees-the-tile-entry-not-the-link-target/%s' % via, cfg=dict(via=via)))
     walk_cfgs = [dict(grid='f2', levels=[0, 1], meta=[2, 2], target_level=1), dict(grid='sqrt2', levels=[0, 1], meta=[1, 1], target_level=1)]
     # polygon (L-shaped) coverage, the case in which the tile-walk strategy is really needed
     walk_cfgs.append(dict(grid='f2', levels=[1, 2], meta=[1, 1], target_level=2, shape='L', tag='/L-shaped'))
